@@ -251,7 +251,16 @@ func init() {
 		[]string{"/p/{id}/{n:digit}", "/p/{id}/{g:\\w+}", "/p/{id}/au"},                                 // 33: reverse order
 		[]string{"/t/a", "/t/b", "/t/\u4e2d", "/t/c", "/t/d", "/t/{n}"},                                 // 34: an indexed literal that starts with a non-ASCII byte, parameter sibling
 		[]string{"/t/d", "/t/\u00e9x", "/t/c", "/t/b", "/t/a"},                                          // 35: exactly five literals, one non-ASCII, no parameter
+		[]string{"/{-v:a|bc}/u", "/{-v:a|bc}/w", "/{n}"},                                                // 36: ignored-name regexp with a top-level alternation and literal tails, named fallback
+		[]string{"/l/{d:u}-{k}", "/l/{f}", "/n/{d:digit}", "/n/{r:[0-9]+}", "/n/{s}"},                   // 37: an arbitrary interceptor in front of a separator that may occur several times; digit vs regexp vs named
 	)
+}
+
+// zzC02Probes: concrete request paths per table that lie beyond the symbolic length bound.
+var zzC02Probes = map[int][]string{
+	22: {"/18446744073709551616/2", "/18446744073709551615/2", "/99999999999999999999"},
+	37: {"/n/18446744073709551616", "/n/00000000000000000000001", "/l/a-b-c-d-e", "/l/2024-01-02-rep"},
+	18: {"/340282366920938463463374607431768211456"},
 }
 
 // ZZC02(n): n = table*100 + maxLen.
@@ -263,6 +272,12 @@ func ZZC02(n int) {
 		r.Handle(p, &hnd{id: i + 1}, nil, "GET")
 	}
 	path := zzv.Bytes("p", maxLen)
+	if probes := zzC02Probes[n/100]; len(probes) > 0 {
+		// ... or one of a few concrete paths beyond the length bound (long digit runs, many separators)
+		if c := zzv.Choice("probe", 1+len(probes)); c > 0 {
+			path = probes[c-1]
+		}
+	}
 	zzv.Assume(path != "" && path != "*")
 	o, w := zzServe(r, zzReq("GET", path))
 	zzv.Obs("id", o.id)
